@@ -347,3 +347,7 @@ T("c10-twin-graphcoloring-triu", "C10", (L + "graph_coloring/generator.py", "Ran
 B("c10-minesweeper-population", "C10", "C10.R8", (L + "minesweeper/utils.py", "create_flat_mine_locations", "expr", "num_rows * num_cols", "num_rows * num_rows"))
 B("c10-cvrp-no-capacity-check", "C10", "C10.R8", (R + "cvrp/env.py", "CVRP.__init__", "expr", "self.max_capacity < self.max_demand", "self.max_capacity < 0"))
 T("c10-twin-cvrp-flipped", "C10", (R + "cvrp/env.py", "CVRP.__init__", "expr", "self.max_capacity < self.max_demand", "self.max_demand > self.max_capacity"))
+
+# ---------------------------------------------------------------- guarded read (B3), literal extents, bounds vectors
+B("c05-sokoban-ingrid-wrong-cell", "C05", "C05.R7", (R + "sokoban/env.py", "Sokoban.update_box_push_action", "expr", "~self.in_grid(new_location + MOVES[action].squeeze())", "~self.in_grid(new_location)"))
+B("c07-sokoban-ingrid-or-and", "C07", "C07.R5", (R + "sokoban/env.py", "Sokoban.in_grid", "expr", "(0 <= coordinates) & (coordinates < GRID_SIZE)", "(0 <= coordinates) | (coordinates < GRID_SIZE)"))
